@@ -273,6 +273,13 @@ func (c *C05) block(in *hub.Instance, ns *c05State, op engine.Op, st *engine.Ste
 		return in.Bank.GetAllBalances(in.Ctx(), mhubtypes.TempAddress).String() + "|" + in.Bank.GetAllBalances(in.Ctx(), hub.ModuleAddr).String()
 	}
 	before := transit()
+	// non-vacuity: how often the oracle's EndBlocker really adopts prices / holders (the hostile oracle items only bite then)
+	oracleBefore := fmt.Sprint(in.Oracle.GetPrices(in.Ctx()), "|", in.Oracle.GetHolders(in.Ctx()))
+	defer func() {
+		if len(st.Violations) == 0 && fmt.Sprint(in.Oracle.GetPrices(in.Ctx()), "|", in.Oracle.GetHolders(in.Ctx())) != oracleBefore {
+			st.Count("oracle_updates", 1)
+		}
+	}()
 	for _, it := range op.S {
 		c.item(in, ns, it, st)
 	}
@@ -499,7 +506,7 @@ func (c *C05) item(in *hub.Instance, ns *c05State, it string, st *engine.Step) {
 		}, st)
 	case "prices", "prices_partial":
 		epoch := in.Oracle.GetCurrentEpoch(in.Ctx())
-		names := []string{"eth", "ethereum/gas", "bnb", "bsc/gas", "hub", "usdt"}
+		names := []string{"eth", "ethereum/gas", "bnb", "bsc/gas", "hub", "usdt", "big"}
 		if it == "prices_partial" {
 			names = names[:3]
 		}
@@ -513,7 +520,7 @@ func (c *C05) item(in *hub.Instance, ns *c05State, it string, st *engine.Step) {
 	case "prices_extra_name_by_powerless":
 		// a quorum reports the usual prices; the two validators without oracle power add a name nobody else reports
 		epoch := in.Oracle.GetCurrentEpoch(in.Ctx())
-		names := []string{"eth", "ethereum/gas", "bnb", "bsc/gas", "hub", "usdt"}
+		names := []string{"eth", "ethereum/gas", "bnb", "bsc/gas", "hub", "usdt", "big"}
 		for vi, v := range append(append([]hub.Validator{}, c.Vals...), c.Extra...) {
 			var list []*oracletypes.Price
 			for i, n := range names {
@@ -535,7 +542,7 @@ func (c *C05) item(in *hub.Instance, ns *c05State, it string, st *engine.Step) {
 	case "holders_one_nil", "prices_dup_name", "prices_huge_extra", "prices_nil_value_extra", "prices_negative_extra":
 		// a quorum reports as usual; validator A's report is hostile but passes stateless validation
 		epoch := in.Oracle.GetCurrentEpoch(in.Ctx())
-		names := []string{"eth", "ethereum/gas", "bnb", "bsc/gas", "hub", "usdt"}
+		names := []string{"eth", "ethereum/gas", "bnb", "bsc/gas", "hub", "usdt", "big"}
 		for vi, v := range c.Vals {
 			if it == "holders_one_nil" {
 				m := &oracletypes.MsgHoldersClaim{Epoch: epoch, Holders: &oracletypes.Holders{List: []*oracletypes.Holder{{Address: hub.HexAddr("x"), Value: sdk.NewInt(5)}}}, Orchestrator: v.Acc.String()}
@@ -639,7 +646,7 @@ func (c *C05) ClassifyStuck(op engine.Op, a, b string, gid int64) []engine.Viola
 func init() {
 	Register("C05", func(tier string) *Runner {
 		mk := func(tier string) (*C05, engine.Config) {
-			cfg := engine.Config{MaxDepth: 2, Deadline: 75 * time.Second, ReplayLeaf: 20, Horizon: 8 * time.Second, Confirm: 4 * time.Second}
+			cfg := engine.Config{MaxDepth: 2, Deadline: 300 * time.Second, ReplayLeaf: 20, Horizon: 8 * time.Second, Confirm: 4 * time.Second}
 			if tier == "thorough" {
 				cfg = engine.Config{MaxDepth: 3, Deadline: 25 * time.Minute, ReplayLeaf: 100, Horizon: 30 * time.Second, Confirm: 10 * time.Second}
 			}
